@@ -307,7 +307,75 @@ pub fn gen(tier: &str, r: &mut Rng) -> Vec<String> {
         let ops: Vec<String> = (0..len).map(|_| rand_op(r, &s)).collect();
         out.push(format!("c10 hist {} {}", s.line(), ops.join(" ; ")));
     }
+    // by-identifier removals of the parallel twins on containers large enough for the pool to split them, with the
+    // identifier present twice: only the FIRST match may go, whatever worker finds a match first
+    for level in ["conformer-serial", "conformer-name", "residue", "chain", "model", "pdb"] {
+        for k in 0..budget(tier, 2, 8) {
+            out.push(format!("c10 first {} {} {}", level, [60_000usize, 200_000, 20_000][k % 3], 3 + k));
+        }
+    }
     out
+}
+
+/// children of one container with the sought identifier at two places, the parallel by-identifier removal under pools of
+/// several sizes, repeated: the survivor must be the second occurrence
+fn exec_first(level: &str, n: usize, reps: usize) -> Exec {
+    let mut ex = Exec::new("-", "-");
+    ex.tags.push(format!("first:{level}"));
+    let (i1, i2) = (n / 2 - 1, n / 2);
+    let atom = |serial: usize, name: &str, tag: usize| Atom::new(false, serial, tag.to_string(), name, 0.0, 0.0, 0.0, 1.0, 0.0, "C", 0).unwrap();
+    for pool in pools() {
+        for _ in 0..reps {
+            // the marker that tells the two occurrences apart sits in a field the identifier does not look at
+            let verdict: Option<(bool, String)> = match level {
+                "conformer-serial" | "conformer-name" => {
+                    let mut f = Conformer::new("ALA", None, None).unwrap();
+                    for i in 0..n { let dup = i == i1 || i == i2; f.add_atom(atom(if dup { 7_000_000 } else { i }, if dup { "DUP" } else { "CA" }, i)); }
+                    let r = pool.install(|| if level == "conformer-serial" { f.par_remove_atom_by_serial_number(7_000_000) } else { f.par_remove_atom_by_name("DUP") });
+                    let left: Vec<String> = f.atoms().filter(|a| a.name() == "DUP").map(|a| a.id().to_string()).collect();
+                    Some((r, left.join(",")))
+                }
+                "residue" => {
+                    let mut x = Residue::new(1, None, None).unwrap();
+                    for i in 0..n { let dup = i == i1 || i == i2; let mut c = Conformer::new(if dup { "DUP" } else { "ALA" }, Some(if dup { "Z" } else { "A" }), None).unwrap(); c.add_atom(atom(i, "CA", i)); x.add_conformer(c); }
+                    let r = pool.install(|| x.par_remove_conformer_by_id(("DUP", Some("Z"))));
+                    let left: Vec<String> = x.conformers().filter(|c| c.name() == "DUP").flat_map(|c| c.atoms().map(|a| a.id().to_string())).collect();
+                    Some((r, left.join(",")))
+                }
+                "chain" => {
+                    let mut c = Chain::new("A").unwrap();
+                    for i in 0..n { let dup = i == i1 || i == i2; let mut f = Conformer::new("ALA", None, None).unwrap(); f.add_atom(atom(i, "CA", i)); c.add_residue(Residue::new(if dup { -5 } else { i as isize }, None, Some(f)).unwrap()); }
+                    let r = pool.install(|| c.par_remove_residue_by_id((-5, None)));
+                    let left: Vec<String> = c.residues().filter(|x| x.serial_number() == -5).flat_map(|x| x.atoms().map(|a| a.id().to_string())).collect();
+                    Some((r, left.join(",")))
+                }
+                "model" => {
+                    let mut m = Model::new(1);
+                    for i in 0..n { let dup = i == i1 || i == i2; let mut c = Chain::new(if dup { "DUP".to_string() } else { format!("C{}", i % 900) }).unwrap(); let mut f = Conformer::new("ALA", None, None).unwrap(); f.add_atom(atom(i, "CA", i)); c.add_residue(Residue::new(1, None, Some(f)).unwrap()); m.add_chain(c); }
+                    let r = pool.install(|| m.par_remove_chain_by_id("DUP"));
+                    let left: Vec<String> = m.chains().filter(|c| c.id() == "DUP").flat_map(|c| c.atoms().map(|a| a.id().to_string())).collect();
+                    Some((r, left.join(",")))
+                }
+                _ => {
+                    let mut p = PDB::new();
+                    let small = n / 20;
+                    let (j1, j2) = (small / 2 - 1, small / 2);
+                    for i in 0..small { let dup = i == j1 || i == j2; let mut m = Model::new(if dup { 424_242 } else { i }); let mut c = Chain::new("A").unwrap(); let mut f = Conformer::new("ALA", None, None).unwrap(); f.add_atom(atom(i, "CA", i)); c.add_residue(Residue::new(1, None, Some(f)).unwrap()); m.add_chain(c); p.add_model(m); }
+                    let r = pool.install(|| p.par_remove_model_serial_number(424_242));
+                    let left: Vec<String> = p.models().filter(|m| m.serial_number() == 424_242).flat_map(|m| m.atoms().map(|a| a.id().to_string())).collect();
+                    let want = j2.to_string();
+                    if !r || left.join(",") != want { ex.failures.push(Failure::new("parallel-by-identifier-removal-did-not-remove-the-first-match", format!("left {:?}, wanted {:?}", left, want)).feat("level", level).feat("threads", pool.current_num_threads())); }
+                    None
+                }
+            };
+            if let Some((r, left)) = verdict {
+                let want = i2.to_string();
+                if !r || left != want { ex.failures.push(Failure::new("parallel-by-identifier-removal-did-not-remove-the-first-match", format!("left {:?}, wanted {:?}", left, want)).feat("level", level).feat("threads", pool.current_num_threads())); }
+            }
+            if !ex.failures.is_empty() { return ex; }
+        }
+    }
+    ex
 }
 
 fn has_empty(s: &SPdb) -> bool {
@@ -320,7 +388,14 @@ fn atom_ids(s: &SPdb) -> Vec<String> {
 pub fn exec(case: &str) -> Exec {
     let mut t = Toks::new(case);
     t.expect("c10").unwrap();
-    t.expect("hist").unwrap();
+    let family = t.next().unwrap().to_string();
+    if family == "first" {
+        let level = t.next().unwrap().to_string();
+        let n = t.usize().unwrap();
+        let reps = t.usize().unwrap();
+        return exec_first(&level, n, reps);
+    }
+    assert_eq!(family, "hist");
     let s = SPdb::parse(&mut t).expect("structure");
     let rest: Vec<&str> = t.v[t.i..].to_vec();
     let ops: Vec<Vec<&str>> = rest.split(|x| *x == ";").filter(|o| !o.is_empty()).map(|o| o.to_vec()).collect();
